@@ -1,6 +1,7 @@
 package main
 
 import (
+	"encoding/json"
 	"fmt"
 	"os"
 	"time"
@@ -120,6 +121,9 @@ func runCheck(prop, tier string, seed int64, workers int) int {
 	}
 	if prop == "C10" {
 		return runC10(rep, p, tier)
+	}
+	if prop == "C03" {
+		return runC03(rep, p, tier)
 	}
 	if prop == "C06" || prop == "C16" {
 		return runE2(rep, p, prop, tier)
@@ -276,5 +280,117 @@ func runE2(rep *engines.Report, p *pool.Pool, prop, tier string) int {
 	rep.Coverage["explorations"] = per
 	rep.Coverage["rule"] = "tapes = final tapes of the listed histories (deduplicated by record shape), produced by the real write path; cut policy 'all' = every prefix length 0..|T| (byte granular), 'quick' = every 512-byte boundary, every boundary between two drive writes +-1 byte, every 7th byte of the last two records; each cut is rebuilt (C06) or opened with Initialize under each index variant (C16) on a fresh real stack. distinct_nontrivial = distinct (tape shape, torn record kind, part of the record hit, alignment)."
 	rep.Assumptions = []string{"tape = regular file; a crash leaves a prefix of the bytes written (append-only log, no reordering of earlier blocks)", "config none (names must be readable to identify the torn entry)"}
+	return rep.Finish()
+}
+
+func runC03(rep *engines.Report, p *pool.Pool, tier string) int {
+	rep.Level = "exploration"
+	comps := []string{"", "gzip", "parallelgzip", "lz4", "zstandard", "brotli", "bzip2", "parallelbzip2"}
+	levels := []string{"fastest", "balanced", "smallest"}
+	encs := []string{"", "age", "pgp"}
+	sigs := []string{"", "minisign", "pgp"}
+	rss := []int{1, 20}
+	caches := []string{"memory"}
+	fills := []string{"T"}
+	if tier != "quick" {
+		rss = []int{1, 2, 3, 7, 20, 64}
+		caches = []string{"memory", "file"}
+		fills = []string{"T", "Z", "R"}
+	}
+	jobs := []interface{}{}
+	for _, c := range comps {
+		for _, l := range levels {
+			for _, e := range encs {
+				for _, s := range sigs {
+					for _, rs := range rss {
+						for _, wc := range caches {
+							lens := []int{0, 1, 513, 512*rs + 1}
+							if tier != "quick" {
+								lens = []int{0, 1, 511, 512, 513, 512*rs - 1, 512 * rs, 512*rs + 1, 5*512*rs + 17}
+							}
+							contents := []string{}
+							seen := map[int]bool{}
+							for _, n := range lens {
+								if seen[n] {
+									continue
+								}
+								seen[n] = true
+								for _, f := range fills {
+									if n == 0 && f != fills[0] {
+										continue
+									}
+									contents = append(contents, fmt.Sprintf("%s%d:%d", f, n, n%7))
+								}
+							}
+							jobs = append(jobs, &engines.C03Job{Cfg: rig.Config{Compression: c, Level: l, Encryption: e, Signature: s, RecordSize: rs, WriteCache: wc}, Contents: contents})
+						}
+					}
+				}
+			}
+		}
+	}
+	for _, c := range comps {
+		for _, l := range levels {
+			for _, rs := range []int{1, 2, 3, 7, 20, 64, 128, 256} {
+				jobs = append(jobs, &engines.C03Job{Codec: true, Cfg: rig.Config{Compression: c, Level: l, RecordSize: rs}, Contents: []string{"T0", "T1", "T513:3", fmt.Sprintf("R%d:1", 5*512*rs+17)}})
+			}
+		}
+	}
+	budget := 4 * time.Minute
+	if tier != "quick" {
+		budget = 25 * time.Minute
+	}
+	deadline := time.Now().Add(budget)
+	p.Stop = func() bool { return time.Now().After(deadline) }
+	evals, skipped := 0, 0
+	distinct := map[string]bool{}
+	refused := map[string]bool{}
+	harness := ""
+	p.Map("c03", jobs, func(i int, resp *pool.Response) {
+		job := jobs[i].(*engines.C03Job)
+		if resp.Err == "skipped" {
+			skipped++
+			return
+		}
+		if resp.Err != "" {
+			rep.Inconclusive++
+			fmt.Fprintf(os.Stderr, "[C03] inconclusive: %s: %s\n", job.Cfg, resp.Err)
+			return
+		}
+		var r engines.C03Res
+		_ = json.Unmarshal(resp.Result, &r)
+		if r.Harness != "" {
+			harness = r.Harness
+			return
+		}
+		evals += r.Evals
+		for _, d := range r.Distinct {
+			distinct[d] = true
+		}
+		for _, d := range r.Refused {
+			refused[d] = true
+		}
+		for _, v := range r.Viol {
+			// minimal replay job: this configuration only
+			rep.Add("c03", job, []engines.Violation{v})
+		}
+	})
+	p.Stop = nil
+	if harness != "" {
+		fmt.Fprintln(os.Stderr, "HARNESS ERROR:", harness)
+		return 2
+	}
+	rep.AddSample(jobs[len(jobs)/3])
+	rep.AddSample(jobs[len(jobs)-1])
+	rep.Coverage["evaluations"] = evals
+	rep.Coverage["distinct_nontrivial"] = len(distinct)
+	rep.Coverage["pipelines"] = len(comps) * len(levels) * len(encs) * len(sigs)
+	rep.Coverage["codec_refusals_accepted"] = len(refused)
+	rep.Coverage["exhaustive"] = skipped == 0
+	rep.Coverage["rule"] = "complete Cartesian product compression(8) x level(3) x encryption(3) x signature(3) x record size x write cache x content (length class x fill); every case is written through the afero API on a fresh real stack and read back four ways after a reopen (Stat size, File.Read, Operations.Restore, recovery.Fetch at the indexed position); plus component-level round trips of the codec parameters for regular and non-regular drives and tape-writer padding. distinct_nontrivial = distinct (pipeline, record size, cache, length class, fill) cells executed."
+	rep.Assumptions = []string{"contents drawn from length classes {0,1,511,512,513,one record -1/0/+1, 5 records+17} and fills {text, zeros, pseudo-random}", "tape = regular file for the end-to-end part; non-regular parameters at component level only"}
+	if skipped > 0 {
+		rep.Notes = append(rep.Notes, fmt.Sprintf("budget reached: %d of %d configurations not executed", skipped, len(jobs)))
+	}
 	return rep.Finish()
 }
